@@ -18,8 +18,14 @@
 // Model-free oracle (real code alone): a token computed by vitess' client-side ScrambleMysqlNativePassword
 // from the right password is accepted when exactly one account can match; tokens for another password or
 // another salt, random tokens, and any response for a locked account are rejected; an account without a
-// password accepts exactly the empty response; no input makes the code panic; ValidateHash and
-// UserEntryWithHash agree.
+// password accepts exactly the empty response; no input makes the code panic; a response whose length is
+// not 20 (in particular 1-19 bytes, and a valid token followed by extra bytes) is rejected; ValidateHash
+// and UserEntryWithHash agree.
+//
+// The two former findings of the scramble check (native_short_response_oob: panic on a 1-19-byte response;
+// native_long_response_accepted: valid token + trailing bytes accepted) were repaired by the length guard
+// `if len(authResponse) != len(scramble) { return false }`; their witnesses stay in the corpus below and
+// must now pass, a recurrence is reported with region "-" (a violation, not a known finding).
 package main
 
 import (
@@ -343,11 +349,7 @@ func loginCase(out *hx.Out, accts []acct, enabled bool, user, host string, salt 
 		out.OracleFail(id, "-", fmt.Sprintf("UserEntryWithHash gives %s, ValidateHash gives %s", o1, o2))
 	}
 	if p1 != "" {
-		tag := "-"
-		if n := len(at.resp); n >= 1 && n <= 19 {
-			tag = "native_short_response_oob"
-		}
-		out.OracleFail(id, tag, fmt.Sprintf("authentication panics on a %d-byte response: %s", len(at.resp), p1))
+		out.OracleFail(id, "-", fmt.Sprintf("authentication panics on a %d-byte response: %s", len(at.resp), p1))
 		return
 	}
 	if !enabled {
@@ -377,7 +379,7 @@ func loginCase(out *hx.Out, accts []acct, enabled bool, user, host string, salt 
 			}
 		case at.kind == "token-plus-trailing-bytes":
 			if accepted {
-				out.OracleFail(id, "native_long_response_accepted", fmt.Sprintf("a %d-byte response (valid token followed by extra bytes) was accepted", len(at.resp)))
+				out.OracleFail(id, "-", fmt.Sprintf("a %d-byte response (valid token followed by extra bytes) was accepted", len(at.resp)))
 			}
 		default:
 			if accepted {
@@ -387,6 +389,10 @@ func loginCase(out *hx.Out, accts []acct, enabled bool, user, host string, salt 
 	}
 	if len(cands) == 0 && accepted {
 		out.OracleFail(id, "-", "accepted although no account matches")
+	}
+	// a mysql_native_password response is empty (no password) or one SHA-1 digest long
+	if n := len(at.resp); n != 0 && n != 20 && accepted {
+		out.OracleFail(id, "-", fmt.Sprintf("a %d-byte response was accepted: %s", n, o1))
 	}
 }
 
@@ -498,11 +504,10 @@ func run(a hx.RunArgs) error {
 		out.Stat("vn:" + kind)
 		out.Stat("vn:result:" + obs)
 		if p != "" {
-			tag := "-"
-			if len(resp) >= 1 && len(resp) <= 19 {
-				tag = "native_short_response_oob"
-			}
-			out.OracleFail(id, tag, fmt.Sprintf("validateMysqlNativePassword panics on a %d-byte response: %s", len(resp), p))
+			out.OracleFail(id, "-", fmt.Sprintf("validateMysqlNativePassword panics on a %d-byte response: %s", len(resp), p))
+		}
+		if len(resp) != 20 && obs == "1" {
+			out.OracleFail(id, "-", fmt.Sprintf("a %d-byte response is accepted", len(resp)))
 		}
 		switch kind {
 		case "right-token":
@@ -514,13 +519,18 @@ func run(a hx.RunArgs) error {
 				out.OracleFail(id, "-", "a "+kind+" response is accepted")
 			}
 		case "right-token-plus-extra":
-			if obs == "1" {
-				out.OracleFail(id, "native_long_response_accepted", fmt.Sprintf("a %d-byte response (valid token followed by extra bytes) is accepted", len(resp)))
+			if obs != "0" {
+				out.OracleFail(id, "-", fmt.Sprintf("a %d-byte response (valid token followed by extra bytes) is not rejected: %s", len(resp), obs))
+			}
+		case "short":
+			if obs != "0" {
+				out.OracleFail(id, "-", fmt.Sprintf("a %d-byte response is not rejected: %s", len(resp), obs))
 			}
 		}
 	}
 	salt0 := []byte("01234567890123456789")
-	// corpus: F-C40-a and the boundary lengths
+	// corpus: the witnesses of the repaired findings F-C40-a (1..19 zero bytes panicked) and F-C40-b (valid
+	// token + one byte was accepted) and the boundary lengths: all of them must be rejected now
 	for n := 0; n <= 40; n++ {
 		vn(make([]byte, n), salt0, nativeHash("pw"), fmt.Sprintf("zeros-len-%02d", n))
 	}
@@ -594,7 +604,7 @@ func run(a hx.RunArgs) error {
 	tok := func(pw string) []byte { return mysql.ScrambleMysqlNativePassword(salt0, []byte(pw)) }
 	// corpus
 	loginCase(out, []acct{u1("localhost", "pw", false)}, true, "u1", "localhost", salt0, attempt{"token-of-an-account-password", tok("pw")})
-	loginCase(out, []acct{u1("localhost", "pw", false)}, true, "u1", "localhost", salt0, attempt{"short", make([]byte, 19)}) // F-C40-a
+	loginCase(out, []acct{u1("localhost", "pw", false)}, true, "u1", "localhost", salt0, attempt{"short", make([]byte, 19)}) // F-C40-a (repaired): denied, no panic
 	loginCase(out, []acct{u1("localhost", "pw", true)}, true, "u1", "localhost", salt0, attempt{"token-of-an-account-password", tok("pw")})
 	loginCase(out, []acct{u1("localhost", "", false)}, true, "u1", "localhost", salt0, attempt{"empty", nil})
 	loginCase(out, []acct{u1("localhost", "", false)}, true, "u1", "localhost", salt0, attempt{"token-of-some-password", tok("pw")})
@@ -602,6 +612,7 @@ func run(a hx.RunArgs) error {
 	loginCase(out, []acct{u1("10.0.%", "secret", false), u1("%", "pw", false)}, true, "u1", "10.0.0.5", salt0, attempt{"token-of-an-account-password", tok("secret")})
 	loginCase(out, []acct{u1("%", "pw", false), u1("localhost", "secret", false)}, true, "u1", "127.0.0.1", salt0, attempt{"token-of-an-account-password", tok("secret")})
 	loginCase(out, []acct{u1("localhost", "pw", false)}, false, "nobody", "elsewhere", salt0, attempt{"empty", nil})
+	loginCase(out, []acct{u1("localhost", "pw", false)}, true, "u1", "localhost", salt0, attempt{"token-plus-trailing-bytes", append(append([]byte{}, tok("pw")...), 7)}) // F-C40-b (repaired): denied
 	for i := 0; i < nLogin; i++ {
 		rr := rl.Fork()
 		accts := genAccts(rr)
@@ -778,6 +789,27 @@ func extract(a hx.ExtractArgs) error {
 		}
 	}
 	lf.DefStringList("nativeSteps", steps)
+	// the whole top-level statement sequence in order, guards with their bodies: where the response-length
+	// check sits (after the scramble is computed, before the loop) and what it returns
+	norm := func(n ast.Node) string { return strings.Join(strings.Fields(src.Text(n)), " ") }
+	var skel []string
+	for _, st := range fd.Body.List {
+		switch s := st.(type) {
+		case *ast.IfStmt:
+			if s.Init != nil || s.Else != nil {
+				return fmt.Errorf("validateMysqlNativePassword: unexpected if statement shape: %s", norm(s))
+			}
+			skel = append(skel, "if "+norm(s.Cond)+" "+norm(s.Body))
+		case *ast.RangeStmt:
+			if s.Key == nil || s.Value != nil {
+				return fmt.Errorf("validateMysqlNativePassword: unexpected range statement shape: %s", norm(s))
+			}
+			skel = append(skel, "for "+norm(s.Key)+" := range "+norm(s.X)+" "+norm(s.Body))
+		default:
+			skel = append(skel, norm(s))
+		}
+	}
+	lf.DefStringList("nativeSkeleton", skel)
 
 	// the accept/deny skeleton shared by UserEntryWithHash and ValidateHash: conditions of their if statements
 	conds := func(fd *ast.FuncDecl, s *hx.Src) []string {
